@@ -302,10 +302,13 @@ LOOP:
 	for i, tx := range txs {
 		state.Prepare(tx.Hash(), header.Hash(), i)
 		snap := state.Snapshot()
+		gasBefore := gasPool.Gas()
 		receipt, _, err := ApplyTransaction(bo.blockchain.chainConfig, bo.logger, bo.blockchain, gasPool, state, header, tx, usedGas, kvmConfig)
 		if err != nil {
 			bo.logger.Error("ApplyTransaction failed", "tx", tx.Hash().Hex(), "nonce", tx.Nonce(), "err", err)
 			state.RevertToSnapshot(snap)
+			// a rejected tx must not consume block gas: give back what buyGas took
+			*gasPool = types.GasPool(gasBefore)
 			continue LOOP
 		}
 		i++
